@@ -795,3 +795,112 @@ Print Assumptions C01_static_split_entry_heap_invariant.
 Example C01_static_split_entry_heap_invariant_example :
   HW (stamp sy_3 3) 3 /\ inhabited (base sy_3) 3 /\ sy_returns = true.
 Proof. exact split_entry_HW_example. Qed.
+
+(* ---------------- Block::split: statistics of the two halves and the SIGN lemma (Vpsc/StaticSplitStats.v, StaticSplitSign.v) *)
+From Adapt Require Import Vpsc.VpscStationary Vpsc.StaticSplitStats Vpsc.StaticSplitSign Vpsc.StaticSplitSignEx.
+
+(* both new blocks come out of the two populateSplitBlock walks at their weighted optimum with correct statistics
+   (any constraint graph); offsets, variables and the old blocks are untouched *)
+Theorem C01_static_split_halves_at_optimum s this c s' l r :
+  wf_vars (svars s) -> split s this c = Ok (s', l, r) ->
+  blk_ok s' l /\ blk_ok s' r /\ l = length (blocks s) /\ r = S l /\ length (blocks s') = S (S l) /\
+  svars s' = svars s /\ voff s' = voff s /\
+  (forall B, (B < length (blocks s))%nat -> block_of s' B = block_of s B).
+Proof. exact (split_blk_ok s this c s' l r). Qed.
+Print Assumptions C01_static_split_halves_at_optimum.
+
+Example C01_static_split_halves_at_optimum_example :
+  wf_vars (svars sz) /\ split sz 1 0 = Ok (sz', 3%nat, 4%nat) /\ blk_ok sz' 3 /\ blk_ok sz' 4.
+Proof. exact split_blk_ok_example. Qed.
+
+(* the sign lemma: block b stationary for the multipliers of s (findMinLM), split across the active constraint c; the
+   side t of c (sg = 1: side of left(c), sg = -1: side of right(c)) has its optimum at -sg*lm(c)/(2 U_t) from where b was *)
+Theorem C01_static_split_sign s s' b c t sg :
+  book s -> wf_vars (svars s) -> (c < length (scons s))%nat -> act_of s c = true ->
+  stationary_block s s b -> svars s' = svars s -> voff s' = voff s -> book s' ->
+  (forall i, (i < length (svars s))%nat -> blk_of s' i = t -> blk_of s i = b) ->
+  (exists v, (v < length (svars s))%nat /\ blk_of s' v = t) ->
+  (forall k, (k < length (scons s))%nat -> act_of s k = true -> k <> c ->
+     (blk_of s' (cl (con_of s k)) = t <-> blk_of s' (cr (con_of s k)) = t)) ->
+  ((blk_of s' (cl (con_of s c)) = t /\ blk_of s' (cr (con_of s c)) <> t /\ sg == 1) \/
+   (blk_of s' (cl (con_of s c)) <> t /\ blk_of s' (cr (con_of s c)) = t /\ sg == -1)) ->
+  blk_ok s' t ->
+  0 < usum (svars s) (bvars (block_of s' t)) /\
+  bscale (block_of s b) * posn (block_of s b) - bscale (block_of s' t) * posn (block_of s' t) ==
+  - sg * lm_of s c / (2 * usum (svars s) (bvars (block_of s' t))).
+Proof. exact (split_side_shift s s' b c t sg). Qed.
+Print Assumptions C01_static_split_sign.
+
+(* lm(c) <= 0: the left half moves LEFT by dl >= 0 (the premise of C01_static_split_merge_left_entry) *)
+Theorem C01_static_split_left_half_moves_left s s' b c t sg :
+  book s -> wf_vars (svars s) -> (c < length (scons s))%nat -> act_of s c = true ->
+  stationary_block s s b -> svars s' = svars s -> voff s' = voff s -> book s' ->
+  (forall i, (i < length (svars s))%nat -> blk_of s' i = t -> blk_of s i = b) ->
+  (exists v, (v < length (svars s))%nat /\ blk_of s' v = t) ->
+  (forall k, (k < length (scons s))%nat -> act_of s k = true -> k <> c ->
+     (blk_of s' (cl (con_of s k)) = t <-> blk_of s' (cr (con_of s k)) = t)) ->
+  ((blk_of s' (cl (con_of s c)) = t /\ blk_of s' (cr (con_of s c)) <> t /\ sg == 1) \/
+   (blk_of s' (cl (con_of s c)) <> t /\ blk_of s' (cr (con_of s c)) = t /\ sg == -1)) ->
+  blk_ok s' t -> sg == 1 -> lm_of s c <= 0 ->
+  exists dl, 0 <= dl /\ forall u, blk_of s' u = t -> (u < length (svars s))%nat -> Yof s' u == Yof s u - dl.
+Proof. exact (split_left_half_moves_left s s' b c t sg). Qed.
+Print Assumptions C01_static_split_left_half_moves_left.
+
+(* lm(c) <= 0: the optimum of the right half is to the RIGHT of where the block was (rho >= 0 of geo2_entry_move) *)
+Theorem C01_static_split_right_half_optimum_right s s' b c t sg :
+  book s -> wf_vars (svars s) -> (c < length (scons s))%nat -> act_of s c = true ->
+  stationary_block s s b -> svars s' = svars s -> voff s' = voff s -> book s' ->
+  (forall i, (i < length (svars s))%nat -> blk_of s' i = t -> blk_of s i = b) ->
+  (exists v, (v < length (svars s))%nat /\ blk_of s' v = t) ->
+  (forall k, (k < length (scons s))%nat -> act_of s k = true -> k <> c ->
+     (blk_of s' (cl (con_of s k)) = t <-> blk_of s' (cr (con_of s k)) = t)) ->
+  ((blk_of s' (cl (con_of s c)) = t /\ blk_of s' (cr (con_of s c)) <> t /\ sg == 1) \/
+   (blk_of s' (cl (con_of s c)) <> t /\ blk_of s' (cr (con_of s c)) = t /\ sg == -1)) ->
+  blk_ok s' t -> sg == -1 -> lm_of s c <= 0 ->
+  bscale (block_of s b) * posn (block_of s b) <= bscale (block_of s' t) * posn (block_of s' t).
+Proof. exact (split_right_half_optimum_right s s' b c t sg). Qed.
+Print Assumptions C01_static_split_right_half_optimum_right.
+
+(* non-vacuity: block {v0, v1} after findMinLM (lm = 3), the model's own Block::split; all premises hold, shift = -3/2 *)
+Example C01_static_split_sign_example :
+  lm_of sz 0 == 3 /\
+  bscale (block_of sz 1) * posn (block_of sz 1) - bscale (block_of sz' 3) * posn (block_of sz' 3) ==
+  - 1 * lm_of sz 0 / (2 * usum (svars sz) (bvars (block_of sz' 3))).
+Proof. exact split_side_shift_example. Qed.
+
+(* non-vacuity of the two corollaries: a block whose active constraint has lm(c) = -4 (desired positions pulled apart) *)
+Example C01_static_split_left_half_moves_left_example :
+  lm_of sn 0 <= 0 /\
+  exists dl, 0 <= dl /\ forall u, blk_of sn' u = 3%nat -> (u < length (svars sn))%nat -> Yof sn' u == Yof sn u - dl.
+Proof. exact split_left_half_moves_left_example. Qed.
+Example C01_static_split_right_half_optimum_right_example :
+  lm_of sn 0 <= 0 /\
+  bscale (block_of sn 1) * posn (block_of sn 1) <= bscale (block_of sn' 4) * posn (block_of sn' 4).
+Proof. exact split_right_half_optimum_right_example. Qed.
+
+(* ---------------- forest facts for Block::split, in the form the static-solver proofs consume (Vpsc/StaticSplitGlue.v) *)
+From Adapt Require Import Vpsc.VpscForest Vpsc.StaticSplitGlue.
+Theorem C01_static_split_block_facts s c s' l r :
+  book s -> act_inv s -> forest s -> wf_vars (svars s) -> act_of s c = true ->
+  let b := blk_of s (cl (con_of s c)) in
+  split s b c = Ok (s', l, r) ->
+  book s' /\ act_inv s' /\ forest s' /\
+  svars s' = svars s /\ scons s' = scons s /\ voff s' = voff s /\
+  l = length (blocks s) /\ r = S l /\ length (blocks s') = S (S l) /\ (b < l)%nat /\
+  blk_of s' (cl (con_of s c)) = l /\ blk_of s' (cr (con_of s c)) = r /\
+  (forall u, (u < length (svars s))%nat -> blk_of s u <> b -> blk_of s' u = blk_of s u) /\
+  (forall u, (u < length (svars s))%nat -> blk_of s u = b -> blk_of s' u = l \/ blk_of s' u = r) /\
+  (forall u, (u < length (svars s))%nat -> (blk_of s' u = l \/ blk_of s' u = r) -> blk_of s u = b) /\
+  (forall k, (k < length (scons s))%nat -> act_of s k = true -> k <> c ->
+     blk_of s' (cl (con_of s k)) = blk_of s' (cr (con_of s k))) /\
+  act_of s' c = false /\
+  (forall B, (B < length (blocks s))%nat -> block_of s' B = block_of s B) /\
+  blk_ok s' l /\ blk_ok s' r.
+Proof. exact (split_glue s c s' l r). Qed.
+Print Assumptions C01_static_split_block_facts.
+
+Example C01_static_split_block_facts_example :
+  book sn /\ act_inv sn /\ forest sn /\ wf_vars (svars sn) /\ act_of sn 0 = true /\
+  split sn (blk_of sn (cl (con_of sn 0))) 0 = Ok (sn', 3%nat, 4%nat) /\
+  blk_of sn' 0 = 3%nat /\ blk_of sn' 1 = 4%nat.
+Proof. exact split_glue_example. Qed.
